@@ -487,8 +487,10 @@ func CompLargePrograms() []CompCase {
 		sb.WriteString(close + "\n}\nout = 5\n")
 		return sb.String()
 	}
-	one := func(int) string { return "1" }
-	kv := func(i int) string { return "k" + N(i) + ":1" }
+	// the elements are reads of a global, not literals: 65535 literals would be 65535 constants and the program would
+	// (rightly, since O41) be rejected for its constants before the element count is looked at
+	one := func(int) string { return "out" }
+	kv := func(i int) string { return "k" + N(i) + ":out" }
 	return []CompCase{{Src: a.String()}, {Src: b.String()},
 		{Src: lit(65535, "[", "]", one)}, {Src: lit(65536, "[", "]", one)},
 		{Src: lit(32767, "{", "}", kv)}, {Src: lit(32768, "{", "}", kv)}}
